@@ -290,6 +290,22 @@ fn probe(args: &Args) {
         } } } } } }
         println!("SIZED total={} over-bound={} worst(len-bound)={}", total, fails, worst);
     }
+    if which == "sized16" {
+        // many threads x tiny incompressible pieces x small windows: per-job overhead dominates
+        let mut worst: i64 = i64::MIN; let mut fails = 0; let mut total = 0;
+        for q in 2..=11 { for t in [12usize, 14, 15, 16] { for piece in [1usize, 2, 3, 4, 5, 8, 16, 33, 100, 300, 1000] { for lgwin in [10, 13, 15, 16, 17, 18, 22] { for (magic, catable) in [(false, false), (true, false), (true, true)] { for kind in [0u64, 4] {
+            let n = piece * t + (q as usize % 3);
+            let mut rng = Rng::new((q as u64) << 32 | (t as u64) << 16 | piece as u64);
+            let input = gen_input(&mut rng, n, kind);
+            let p = mk_params(q, lgwin, false, catable, false, magic, false);
+            let bound = BrotliEncoderMaxCompressedSizeMulti(n, t);
+            let o = run_multi(Spawner::Inline, &p, &input, t, bound, None);
+            total += 1;
+            if o.class == "ok" { let over = o.bytes.len() as i64 - bound as i64; if over > worst { worst = over; println!("SIZED16 q={} t={} piece={} lgwin={} magic={} catable={} kind={} -> len={} bound={} margin={}", q, t, piece, lgwin, magic, catable, kind, o.bytes.len(), bound, -over); } }
+            else { fails += 1; if fails <= 10 { let o2 = run_multi(Spawner::Inline, &p, &input, t, bound + 4096, None); println!("SIZED16 FAIL q={} t={} piece={} n={} lgwin={} magic={} catable={} kind={} -> {} at cap=bound={}, needs {}", q, t, piece, n, lgwin, magic, catable, kind, o.class, bound, o2.bytes.len()); } }
+        } } } } } }
+        println!("SIZED16 total={} failed-at-bound={} worst(len-bound)={}", total, fails, worst);
+    }
     if which == "d16grid" {
         // favor on/off over quality x {no truncation, truncation}; counts of differing / wrong outputs
         for q in 0..=11 {
